@@ -41,10 +41,18 @@ def run_case(case, res):
         res.sample({'scenario': case['scenario'], 'bound': case['bound']}, cap=1)
 
 
+BOUND2 = ('forced-unchanged', 'late-subscribe', 'subscribe-then-mempool', 'lonely-read',
+          'enter-confirm', 'untouched-block')
+
+
 def cases_for(tier):
-    bound = 1 if tier == 'quick' else 2
-    return [dict(scenario=name, bound=bound, shard=[i, 4]) for name in fullrun.scenarios()
-            for i in range(4)]
+    cases = [dict(scenario=name, bound=1, shard=[i, 4]) for name in fullrun.scenarios()
+             for i in range(4)]
+    if tier != 'quick':
+        # two deviations on the shorter scenarios (the others would take hours)
+        cases = [c for c in cases if c['scenario'] not in BOUND2]
+        cases += [dict(scenario=name, bound=2, shard=[i, 16]) for name in BOUND2 for i in range(16)]
+    return cases
 
 
 def run(tier, seed, started):
@@ -61,7 +69,7 @@ def run(tier, seed, started):
         'distinct_nontrivial': len(res.sets.get('schedules', ())),
         'rule': ('16 scenarios x every choice vector with total deviation cost <= bound over the '
                  'quiescent points of the explored phase; distinct = (scenario, choice vector)'),
-        'deviation_bound_completed': 1 if tier == 'quick' else 2,
+        'deviation_bound_completed': 1 if tier == 'quick' else '2 on ' + ', '.join(BOUND2) + '; 1 on the others',
         'choice_points': c['choice_points'],
         'max_choice_points_in_one_execution': c.get('max:choice_points_in_one_execution'),
         'statuses_judged': c['statuses_judged'], 'headers_judged': c['headers_judged'],
